@@ -9,7 +9,9 @@ def run(ctx):
         "rule": "cases = {random, all-zero, all-ff, leading-zero 256-byte keys} x body lengths {0..48 all, 0..300 sampled (thorough: all), "
                 "1024-17..1024+17, 65536-17..65536+17 (every residue mod 16)} x {client->server with ack on/off, server->client with random "
                 "0..15 padding bytes and server/client msg_id parity}; plus serializePacket, Unencrypted.Serialize/Deserialize (intact and damaged), "
-                "isPacketEncrypted, ReadMsg dispatch. Each sealed packet is (a) compared byte for byte with the extracted Coq seal_client, "
+                "isPacketEncrypted, the real transport.ReadMsg over a loopback connection (harness = server), and msg_ids over the whole int64 range "
+                "({0, 2^63, -1, 2^63-1, realistic and random upper halves with bit 63 clear/set} x low bits 00/01/10/11: opened iff 01/11) through "
+                "DeserializeEncrypted, DeserializeUnencrypted and ReadMsg. Each sealed packet is (a) compared byte for byte with the extracted Coq seal_client, "
                 "(b) opened by an independent Go reference server written from the spec (crypto/aes + crypto/sha1): fields, padding < 16, key id / msg_key offsets; "
                 "each reference-server packet is opened by DeserializeEncrypted and by the extracted open_client; the Coq spec side (open_server / seal_server) "
                 "is compared with the Go reference on a third of the cases. Bodies of ~2^16 bytes run on the implementation + reference only (quick tier). "
@@ -26,6 +28,7 @@ def run(ctx):
          "validated further by this byte-for-byte comparison with crypto/sha1 + crypto/aes",
          "'a conformant server' = open_server / seal_server written in Coq from the MTProto 1.0 description, cross-checked on every run against an "
          "independent Go implementation inside the harness; not an external server",
+         "transport.ReadMsg is driven through the exported NewTransport over loopback TCP, intermediate mode, one frame in flight",
          "verif hooks (build tag verif): messages.VerifSerializePacket, transport.VerifIsPacketEncrypted"],
         corr)
     return C.finish(ctx, "proof", cov, [
